@@ -17,7 +17,8 @@ EXPLANATION = (
     "escape_instance_name(my_name)."
     " The rollback is exact: data is truncated at the snapshot and a compression entry survives iff its offset is strictly below it."
     " (g) The compression table is keyed by the exact label suffix that is written: no case folding between labels[i..].join(\".\") and names.get / names.insert."
-    " The owner name write_record emits is DnsRecord::get_name() (the current, possibly renamed name).")
+    " The owner name write_record emits is DnsRecord::get_name() (the current, possibly renamed name)."
+    " (h) Every successful return of DnsIncoming::new has passed the header and all four section readers (only `?` error exits skip one).")
 UNDECIDED = ["value round trip: decoded names/RDATA equal what was added (escaping, compression pointers pointing at the right bytes)",
              "non-injective compression key for labels containing '.' (a\\.b vs a.b)",
              "answers/authorities that do not fit are dropped while later smaller records still enter the packet",
